@@ -180,6 +180,13 @@ func TestC18(t *testing.T) {
 						continue
 					}
 					other := vocab.ShapesFor(f, c, true) // fresh ids: a different value of the same shapes
+					if f.Kind == vocab.KItems {
+						// a list is whatever its owner put there: the same member twice, a nil entry between members.  A merge takes the list, it does not edit it
+						for _, l := range []*[]vocab.Shaped{&shapes, &other} {
+							a, b := c.ID("dup"), c.ID("dup")
+							*l = append(*l, vocab.Shaped{Name: "list-repeated-member", V: reflect.ValueOf(ap.ItemCollection{a, b, &ap.Object{ID: a, Type: ap.NoteType}, a, nil, b})})
+						}
+					}
 					for si := range shapes {
 						total++
 						cell := fmt.Sprintf("%s.%s %s %s", gt, f.Name, pattern, shapes[si].Name)
